@@ -903,3 +903,46 @@ def for_try_except_contracts():
             ("the result is the function's result on a tuple on which it returns", is_ok_result(r.info["id"]))]),
         Exit("ValueError", when=lambda pre, a: z3.Not(any_ok()))], props=("C14", "C17"))
     return [c]
+
+
+def assignment_contracts():
+    """PVLEncoder.encode_assignment (C01 / C07 anchor: 'quoted values bypass wrapping'): a value that starts with a quote
+    character is appended AFTER the statement head was laid out; any other value is laid out together with the head"""
+    from ..pyvc.core import Z
+    from ..pyvc.objtheory import S, sval, strcat, lit, prefixof
+    from ..pyvc.lextheory import tid
+    from ..pyvc.enctheory import gconst, first_of, fmt_fn, ljust_fn
+    E = "pvl.encoder."
+    DELIM = first_of(tid("g.delimiters"))
+    ED = z3.Const("self_end_delimiter", z3.BoolSort())
+    EV = z3.Const("result_of_encode_value", S)
+    out = []
+    f = Contract(E + "PVLEncoder.format", params={"s": "str", "level": "int"}, exits=[
+        Exit("return", res=lambda ex: Z("str", fmt_fn(sval(ex.st.ghost["call_args"]["s"]), ex.as_int(ex.st.ghost["call_args"]["level"]))))])
+    f.assumed = True
+    f.note = "a function of (text, level) only (indentation and textwrap: bounded conformance reader)"
+    out.append(f)
+    ev = Contract(E + "PVLEncoder.encode_value", params={"value": "pyval"}, exits=[
+        Exit("return", res=lambda ex: Z("str", EV)), Exit("ValueError"), Exit("TypeError")])
+    ev.assumed = True
+    ev.note = "signature only (contracts: encode_value / encode_simple_value / encode_string)"
+    out.append(ev)
+
+    def post(pre, post_, a, r):
+        key, lvl = sval(a["key"]), a["level"].t
+        kl = a["key_len"]
+        width = kl.t if isinstance(kl, Z) else None
+        from ..pyvc.objtheory import strlen
+        head = strcat(ljust_fn(key, width if width is not None else strlen(key)), lit(" = "))
+        quoted = z3.Or(prefixof(EV, gconst("quote1")), prefixof(EV, gconst("quote2")))
+
+        def delim(t):
+            return z3.If(ED, strcat(t, DELIM), t)
+        return [("a quoted value is appended after the head was laid out (it is never wrapped); any other value is laid out with the head",
+                 r.t == z3.If(quoted, delim(strcat(fmt_fn(head, lvl), EV)), fmt_fn(delim(strcat(head, EV)), lvl)))]
+    c = Contract(E + "PVLEncoder.encode_assignment", params={"key": "str", "value": "pyval", "level": "int", "key_len": "int"}, exits=[
+        Exit("return", res="str", post=post), Exit("ValueError"), Exit("TypeError")], props=("C01", "C07", "C12"))
+    c.cases = [(f"{cls}{'-default-width' if kl == 'none' else ''}", {"key": "str", "value": "pyval", "level": "int", "key_len": kl, "__cls__": cls})
+               for cls in ("PVLEncoder", "ISISEncoder") for kl in ("int", "none")]
+    out.append(c)
+    return out
